@@ -30,6 +30,12 @@ class Leave(Exception):
     """the evaluation left the modelled domain (no verdict)"""
 
 
+class Cancellation(Exception):
+    """a tail energy formed as (total) - (leading part) is compared with the threshold"""
+    def __init__(self, e):
+        self.e = e
+
+
 class _Ret(Exception):
     def __init__(self, v):
         self.v = v
@@ -49,11 +55,14 @@ class E:
     idx: frozenset
     pw: float
     raw: bool = False
+    cancel: bool = False     # obtained as a difference of two accumulated sums (total minus leading part)
+    neg: bool = False        # negated (only for order-reversing searches)
 
 
 @dataclass(frozen=True)
 class Eps:
     pw: int       # eps ** pw
+    neg: bool = False
 
 
 @dataclass
@@ -71,9 +80,11 @@ class Vec:
 @dataclass
 class Instance:
     n: int
-    word: str              # relation of T_k to eps^2, k = 0..n-1
+    word: str              # relation of the tail energy T_k to eps^2, k = 0..n-1
+    sword: str = ""        # relation of the single value s_k to eps, k = 0..n-1 (only consulted by code that compares single values)
     zero: bool = False     # the spectrum is zero
     eps_zero: bool = False
+    witness: tuple = ()    # a spectrum and a squared threshold with exactly these orderings (feasibility; never consulted for a verdict)
 
     def rel_tail(self, k):
         if k >= self.n:
@@ -81,19 +92,45 @@ class Instance:
         return self.word[k]
 
     def name(self):
-        return f"n={self.n}, tail energies vs eps^2: [{' '.join(self.word)}]" + (", zero spectrum" if self.zero else "") + (", eps = 0" if self.eps_zero else "")
+        return (f"n={self.n}, tail energies vs eps^2: [{' '.join(self.word)}], values vs eps: [{' '.join(self.sword)}]"
+                + (", zero spectrum" if self.zero else "") + (", eps = 0" if self.eps_zero else ""))
 
 
 def instances(nmax=4):
-    out = []
+    """every pair (ordering of the tail energies against eps^2, ordering of the single values against eps) that some non-increasing spectrum
+    of n <= nmax values and some threshold realise - generated from exact small witnesses so that no infeasible ordering is ever evaluated"""
+    from fractions import Fraction as F
+    import itertools
+    seen, out = set(), []
+    rel = lambda a, b: "<" if a < b else (">" if a > b else "=")
     for n in range(1, nmax + 1):
-        for a in range(n + 1):
-            for b in range(n + 1 - a):
-                w = ">" * a + "=" * b + "<" * (n - a - b)
-                out.append(Instance(n, w))
-        out.append(Instance(n, "<" * n, zero=True))
-        for a in range(1, n + 1):
-            out.append(Instance(n, ">" * a + "=" * (n - a), eps_zero=True))
+        for sp in itertools.product((3, 2, 1, 0), repeat=n):
+            if any(sp[i] < sp[i + 1] for i in range(n - 1)):
+                continue
+            tails = [sum(F(x * x) for x in sp[k:]) for k in range(n)]
+            if tails[0] == 0:
+                key = (n, "zero")
+                if key not in seen:
+                    seen.add(key)
+                    out.append(Instance(n, "<" * n, "<" * n, zero=True, witness=(sp, F(1))))
+                continue
+            marks = sorted(set(tails) | {F(x * x) for x in sp})
+            cands = set(marks)
+            for a, b in zip([F(0)] + marks, marks + [marks[-1] + 2]):
+                cands.add((a + b) / 2)
+            for e2 in sorted(c for c in cands if c > 0):
+                w = "".join(rel(t, e2) for t in tails)
+                sw = "".join(rel(F(x * x), e2) for x in sp)
+                key = (n, w, sw)
+                if key not in seen:
+                    seen.add(key)
+                    out.append(Instance(n, w, sw, witness=(sp, e2)))
+            # eps = 0: only exact zeros compare equal
+            w0 = "".join(rel(t, 0) for t in tails)
+            key = (n, w0, "eps0")
+            if key not in seen:
+                seen.add(key)
+                out.append(Instance(n, w0, "".join(rel(F(x * x), 0) for x in sp), eps_zero=True, witness=(sp, F(0))))
     return out
 
 
@@ -122,8 +159,14 @@ class Eval:
             raise Leave("tolerance compared with a non-zero constant")
         if isinstance(b, Eps) and num(a):
             return _FLIP[self.rel(b, a)]
+        if isinstance(a, E) and isinstance(b, (E, Eps)) and a.neg and getattr(b, "neg", False):
+            return _FLIP[self.rel(E(a.idx, a.pw, a.raw, a.cancel), Eps(b.pw) if isinstance(b, Eps) else E(b.idx, b.pw, b.raw, b.cancel))]
         if isinstance(a, E):
             n = inst.n
+            if a.cancel and isinstance(b, Eps):
+                raise Cancellation(a)
+            if len(a.idx) == 1 and isinstance(b, Eps) and abs(b.pw - 2 * a.pw) < 1e-9 and min(a.idx) != n - 1 and not inst.zero:
+                return inst.sword[min(a.idx)]           # one singular value against the tolerance
             suffix = a.idx == frozenset(range(min(a.idx), n)) if a.idx else True
             if num(b):
                 if b != 0:
@@ -175,9 +218,22 @@ class Eval:
             return not self.truth(v)
         if isinstance(e.op, ast.USub) and isinstance(v, (int, float)):
             return -v
+        if isinstance(e.op, ast.USub) and isinstance(v, Vec):
+            return Vec([self._neg(x) for x in v.items])
+        if isinstance(e.op, ast.USub) and isinstance(v, (E, Eps)):
+            return self._neg(v)
         if isinstance(e.op, ast.Invert) and isinstance(v, Vec) and v.kind() == "bool":
             return Vec([not x for x in v.items])
         raise Leave("unary operator")
+
+    def _neg(self, x):
+        if isinstance(x, E):
+            return E(x.idx, x.pw, x.raw, x.cancel, not x.neg)
+        if isinstance(x, Eps):
+            return Eps(x.pw, not x.neg)
+        if isinstance(x, (int, float)) and not isinstance(x, bool):
+            return -x
+        raise Leave("negation")
 
     def ev_BoolOp(self, e, env):
         if isinstance(e.op, ast.And):
@@ -269,11 +325,15 @@ class Eval:
             raise Leave("operator")
         if isinstance(a, Vec) and not isinstance(b, Vec):
             return Vec([self.binop(op, x, b) for x in a.items])
+        if isinstance(b, Vec) and not isinstance(a, Vec):
+            return Vec([self.binop(op, a, y) for y in b.items])
         if isinstance(a, Vec) and isinstance(b, Vec) and len(a.items) == len(b.items):
             return Vec([self.binop(op, x, y) for x, y in zip(a.items, b.items)])
         if isinstance(op, ast.Pow) and num(b):
             if isinstance(a, E):
-                return E(a.idx, a.pw * b)
+                if a.neg:
+                    raise Leave("power of a negated quantity")
+                return E(a.idx, a.pw * b, False, a.cancel)
             if isinstance(a, Eps):
                 p = a.pw * b
                 if abs(p - round(p)) > 1e-9:
@@ -283,8 +343,12 @@ class Eval:
             return E(a.idx, a.pw * 2)
         if isinstance(op, ast.Mult) and isinstance(a, Eps) and isinstance(b, Eps):
             return Eps(a.pw + b.pw)
+        if isinstance(op, ast.Sub) and isinstance(a, E) and isinstance(b, E) and a.pw == 1 and b.pw == 1 and b.idx <= a.idx and not a.neg and not b.neg:
+            # (sum over a) - (sum over part of a): exact arithmetic gives the sum over the rest; in floating point the result carries the
+            # rounding error of the *larger* sums
+            return E(a.idx - b.idx, 1, False, True)
         if isinstance(op, ast.Add) and isinstance(a, E) and isinstance(b, E) and a.pw == 1 and b.pw == 1 and not (a.idx & b.idx):
-            return E(a.idx | b.idx, 1)
+            return E(a.idx | b.idx, 1, False, a.cancel or b.cancel)
         if isinstance(op, ast.Add) and isinstance(a, E) and num(b) and b == 0:
             return a
         if isinstance(op, ast.Add) and isinstance(b, E) and num(a) and a == 0:
@@ -333,9 +397,9 @@ class Eval:
     def ev_Call(self, e, env):
         fn = e.func
         args = [self.ev(a, env) for a in e.args]
-        if e.keywords:
-            raise Leave("keyword argument")
         r = self.model.resolve(self.f.module, fn)
+        if e.keywords and not (r or "").endswith("searchsorted"):
+            raise Leave("keyword argument")
         name = r.rsplit(".", 1)[-1] if r else None
         recv = None
         if r is None and isinstance(fn, ast.Attribute):
@@ -405,8 +469,30 @@ class Eval:
             return min(vals) if name == "min" else max(vals)
         if name == "range" and all(isinstance(a, int) for a in args):
             return Vec(list(range(*args)))
-        if name == "searchsorted":
-            raise Leave("searchsorted")
+        if name == "searchsorted" and len(args) == 2 and isinstance(args[0], Vec) and isinstance(args[1], (E, Eps)):
+            # numpy.searchsorted(a, v, side): a ascending.  The spectrum is non-increasing, so an ascending vector is its negation (or its reverse)
+            side = "left"
+            for kw in e.keywords:
+                if kw.arg == "side" and isinstance(kw.value, ast.Constant):
+                    side = kw.value.value
+                else:
+                    raise Leave("searchsorted keyword")
+            a, v = args[0], args[1]
+            if not all(isinstance(x, E) and x.raw and len(x.idx) == 1 for x in a.items):
+                raise Leave("searchsorted over a derived vector")
+            negs = {x.neg for x in a.items}
+            order = [min(x.idx) for x in a.items]
+            if negs == {True} and order == sorted(order) and getattr(v, "neg", False):
+                pass        # -s ascending, compared with -eps
+            elif negs == {False} and order == sorted(order, reverse=True) and not getattr(v, "neg", False):
+                pass        # s[::-1] ascending, compared with eps
+            else:
+                raise Leave("searchsorted over a vector that is not known to be ascending")
+            for i, x in enumerate(a.items):
+                r = self.rel(x, v)
+                if (side == "left" and r in ">=") or (side == "right" and r == ">"):
+                    return i
+            return len(a.items)
         raise Leave(f"call of {r or name}")
 
     def ev_call_sum_sq(self, v):
@@ -527,6 +613,12 @@ def decide(model: Model, f: Func, nmax=4):
             R = evaluate(model, f, inst)
         except Leave as l:
             out.append((inst, "leave", str(l)))
+            continue
+        except Cancellation as c:
+            out.append((inst, "violated", "the energy of a tail is formed as a difference of two accumulated sums (total minus leading part) and then compared "
+                                          "with eps^2: in floating point the difference carries the rounding error of the *total* energy (about 1e-16 * ||s||^2), "
+                                          "which exceeds eps^2 * ||s||^2 for every relative tolerance below 1e-8 - the comparison then decides on noise "
+                                          "(tails are accumulated from the small end for this reason)"))
             continue
         except RecursionError:
             out.append((inst, "leave", "recursion"))
